@@ -42,10 +42,10 @@ fn cfg_for(args: &Args) -> Cfg {
             l2_factor: 1.0,
             elem_factor: 4.0,
             elementwise: false,
-            dense_max: if t { 6144 } else { 1536 },
-            impulse_max: if t { 32768 } else { 8192 },
+            dense_max: if t { 3072 } else { 1536 },
+            impulse_max: if t { 20000 } else { 8192 },
             struct_max: if t { 1 << 19 } else { 1 << 17 },
-            struct_count: if t { 400 } else { 120 },
+            struct_count: if t { 250 } else { 120 },
             basis_max: if t { 256 } else { 64 },
             n_impulses: 6,
             classes_small: inputs::DENSE_CLASSES.to_vec(),
@@ -57,11 +57,11 @@ fn cfg_for(args: &Args) -> Cfg {
             l2_factor: 4.0,
             elem_factor: 4.0,
             elementwise: true,
-            dense_max: if t { 6144 } else { 1536 },
-            impulse_max: if t { 32768 } else { 8192 },
+            dense_max: if t { 3072 } else { 1536 },
+            impulse_max: if t { 20000 } else { 8192 },
             struct_max: if t { 1 << 19 } else { 1 << 17 },
-            struct_count: if t { 400 } else { 120 },
-            basis_max: if t { 1024 } else { 128 },
+            struct_count: if t { 250 } else { 120 },
+            basis_max: if t { 512 } else { 128 },
             n_impulses: 16,
             classes_small: if t {
                 inputs::DENSE_CLASSES.to_vec()
@@ -75,9 +75,9 @@ fn cfg_for(args: &Args) -> Cfg {
     if prop == "C13" {
         c.l2_factor = 1.0;
         c.elementwise = true;
-        c.dense_max = if t { 1536 } else { 192 };
+        c.dense_max = if t { 768 } else { 192 };
         c.struct_max = 1 << 16;
-        c.struct_count = if t { 200 } else { 12 };
+        c.struct_count = if t { 60 } else { 12 };
         c.basis_max = if t { 256 } else { 48 };
         c.n_impulses = 8;
         c.classes_small = vec![InClass::Uniform, InClass::Positive, InClass::Sparse, InClass::WideRange];
